@@ -2,13 +2,16 @@ META = {
     "assumptions": ["allocation failure out of scope (--no-malloc-may-fail)",
                     "one inductive step from an arbitrary valid attribute list (unique names, block part sorted, both parts "
                     "within capacity); histories follow by induction because every step re-establishes that invariant",
-                    "update/remove: memmove of the attribute array modelled as an element-wise copy (stub_memmove)"],
-    "outside": ["values stored in EA inodes (xattr_create_ea_inode, xattr_inode_dec_ref, reading through ext2fs_file_*): needs inode allocation and file I/O",
+                    "update/remove: memmove of the attribute array modelled as an element-wise copy (stub_memmove)",
+                    "set: xattr_array_update and ext2fs_xattrs_write are cut (cut_statics) and replaced by recording stubs; "
+                    "xattr_array_update is verified by harness update, the serialiser under ext2fs_xattrs_write by harness rt"],
+    "outside": ["CREATING a value in an EA inode (xattr_create_ea_inode, in_inode = 1, the ea_inode retry of ext2fs_xattr_set) and FREEING one whose "
+                "reference count drops to 0 (punch, bitmaps); existing EA-inode-backed attributes ARE covered in rt (image, hash, parser through a "
+                "file stub), update (space accounting, reference dropped once) and set (never 'same value')",
                 "ext2fs_xattrs_write / ext2fs_xattrs_read_inode as a whole: placement of the region inside the inode (i_extra_isize), EA block "
                 "allocation, copy-on-write of shared blocks, h_refcount, i_file_acl / i_blocks accounting, block checksum (ext2fs_adjust_ea_refcount3, "
                 "ext2fs_free_ext_attr, prep_ea_block_for_write)",
-                "ext2fs_xattr_set's own free-space computation from the inode (space_used, i_extra_isize, s_want_extra_isize) and its same-value shortcut",
-                "POSIX ACL conversion (convert_posix_acl_to_disk_buffer and back)", "interaction with inline data (system.data kept in the inode body)",
+                "POSIX ACL conversion (convert_posix_acl_to_disk_buffer and back)", "interaction with inline data beyond ext2fs_xattr_set's system.data rule (block_free = 0, corrupted if found in the block part)",
                 "more than 3 attributes, names > 4 and values > 8 bytes, regions > 96 bytes, ext2fs_xattrs_expand",
                 "e2fsck pass1 checks and ea_refcount, debugfs/create_inode callers",
                 "storage leak / double free beyond the cleared slot checked in harness remove"],
@@ -91,7 +94,35 @@ def rm_cfgs(op):
                 c.append({"OP": op, "N": n, "IBC": ibc, "_unwindset": rm_uw(n)})
     return c
 
+def set_uw(n):
+    return ["main.%d:%d" % (i, 14) for i in range(16)] + \
+        ["xattr_array_update.0:14", "xattr_array_update.1:10", "ref_space.0:5", "ref_same_key.0:5", "ref_attr_ok.0:5",
+         "space_used.0:%d" % (n + 1), "ext2fs_xattr_set.0:%d" % (n + 1), "strcmp.0:26", "strlen.0:26", "memcmp.0:10"]
+
+def set_cfgs():
+    c = []
+    for n in (1, 2):
+        for ibc in range(n + 1):
+            for idx in range(-1, n):
+                c.append({"N": n, "IBC": ibc, "IDX": "(%d)" % idx, "_unwindset": set_uw(n)})
+    c.append({"N": 2, "IBC": 1, "IDX": "(0)", "EAMASK": 1, "_unwindset": set_uw(2)})
+    c.append({"N": 2, "IBC": 1, "IDX": "(1)", "EAMASK": 3, "_unwindset": set_uw(2)})
+    c.append({"N": 2, "IBC": 1, "IDX": "(1)", "ISIZE": 128, "_unwindset": set_uw(2)})
+    c.append({"N": 1, "IBC": 0, "IDX": "(-1)", "ISIZE": 128, "_unwindset": set_uw(1)})
+    for ibc, idx in ((1, -1), (1, 0), (1, 1), (2, 1)):
+        c.append({"N": 2, "IBC": ibc, "IDX": "(%d)" % idx, "SYSDATA": 1, "_unwindset": set_uw(2)})
+    c.append({"N": 3, "IBC": 1, "IDX": "(2)", "_unwindset": set_uw(3), "_tier": "thorough"})
+    c.append({"N": 3, "IBC": 2, "IDX": "(-1)", "_unwindset": set_uw(3), "_tier": "thorough"})
+    return c
+
 HARNESSES = [
+    dict(name="set", src="set.c",
+         funcs=["ext2fs_xattr_set", "space_used", "ext2fs_xattrs_open"],
+         cut_statics={"lib/ext2fs/ext_attr.c": ["xattr_array_update", "ext2fs_xattrs_write"]},
+         configs=set_cfgs(), witness_per_config=True, unwind=5, backends=["default", "kissat"],
+         bound="N in {1,2} (thorough 3) attributes, ibody_count and the position IDX of the existing attribute compile-time, "
+               "inode size 256 (i_extra_isize, s_want_extra_isize symbolic multiples of 4 up to 120) and 128, block size 1024, "
+               "short names 0..4, values 0..8 bytes, existing values in-line or in an EA inode, names user.* and system.data"),
     dict(name="remove", src="remove.c",
          funcs=["ext2fs_xattr_remove", "ext2fs_xattrs_write", "ext2fs_xattrs_open"],
          configs=rm_cfgs(1), unwind=5, backends=["default", "kissat"],
@@ -125,7 +156,9 @@ MANIFEST = {
     "text": "Bounded-exhaustive for the attribute list and its byte image: from every valid in-memory list within the bounds, one "
             "set (xattr_array_update), remove or get yields exactly the model map, keeps both parts within their capacity and the block "
             "part in kernel order; the serialiser writes a region that an independent reader of the on-disk format and the real parser "
-            "both decode to the same list; entry and block hashes equal the format's definition for all inputs in the bound. "
+            "both decode to the same list (in-line values and values kept in an EA inode); ext2fs_xattr_set skips the edit only when the stored "
+            "value equals the new one in length and content and otherwise passes name, value and the free space derived from the inode to the "
+            "list edit and writes back once; entry and block hashes equal the format's definition for all inputs in the bound. "
             "Disk-level bookkeeping (EA block allocation, refcounts, EA inodes) is outside.",
     "note": "Trusted: CBMC's C semantics, the harness's restatement of the on-disk format (xa_common.h), the element-wise memmove model, "
             "bounds listed per harness in evidence/C15.json.",
